@@ -732,7 +732,9 @@ type Filter struct {
 	NoTransport bool // frozen mode
 	NoGrants    bool
 	NoRelease   bool
-	Coarse      bool // only whole accepts/deliveries
+	// Hold keeps goroutines parked at the named scheduling points parked (others may be released).
+	Hold   func(point string) bool
+	Coarse bool // only whole accepts/deliveries
 	OnlyActors  func(name string) bool
 	// AcceptOnly: transport may accept bytes (never deliver) on the client->server direction.
 	C2SAcceptOnly bool
@@ -746,6 +748,15 @@ func (w *World) Enabled(f Filter) []Action {
 	var acts []Action
 	if !f.NoRelease {
 		parked := w.Points.Parked()
+		if f.Hold != nil {
+			kept := parked[:0:0]
+			for _, p := range parked {
+				if !f.Hold(p.Name) {
+					kept = append(kept, p)
+				}
+			}
+			parked = kept
+		}
 		for i, p := range parked {
 			p := p
 			kind := "release"
